@@ -4,10 +4,11 @@ import glob, json, os
 ROOT = os.path.dirname(os.path.dirname(os.path.abspath(__file__)))
 checks = []
 claimed = set()
+ready = set(json.load(open(os.path.join(ROOT, "meta", "claimed.json"))))   # ids integrated and verified quiet
 for mf in sorted(glob.glob(os.path.join(ROOT, "meta", "C*.json"))):
     pid = os.path.basename(mf)[:-5]
     m = json.load(open(mf))
-    if m.get("unclaimed"):
+    if pid not in ready:
         continue
     claimed.add(pid)
     checks.append({
@@ -24,6 +25,10 @@ for mf in sorted(glob.glob(os.path.join(ROOT, "meta", "C*.json"))):
 na_path = os.path.join(ROOT, "meta", "not_applicable.json")
 na = json.load(open(na_path)) if os.path.exists(na_path) else []
 na = [x for x in na if x["property_id"] not in claimed]
+props = [json.loads(l)["id"] for l in open(os.path.join(ROOT, "properties.jsonl"))]
+for p in props:
+    if p not in claimed and not any(x["property_id"] == p for x in na):
+        na.append({"property_id": p, "reason": "not yet claimed: model, theorems and correspondence check under construction (DESIGN.md section 7); no other technique is substituted"})
 man = {
     "version": 1,
     "setup_cmd": "./check setup",
